@@ -30,7 +30,8 @@ type ownMonitor struct {
 		run   *fast.Run
 		state int // 1 in use, 2 pooled
 	}
-	idents [8]*sim.Task // reuse-stress: idents[i] = live task holding simulated identity i+1
+	taskRun [sim.MaxTasks]*fast.Run // the runtime record each task uses
+	idents  [8]*sim.Task            // reuse-stress: idents[i] = live task holding simulated identity i+1
 	nident int
 
 	viol     string
@@ -106,6 +107,15 @@ func (m *ownMonitor) checkRun(cur *sim.Task, run *fast.Run, what string) {
 		// the record was left behind by a task that has exited: the new goroutine inherits it
 		m.inherit++
 		m.runs[i].owner = cur
+	}
+	if id := m.identOf(cur); id != 0 && run.VerifGoid() == id {
+		// one goroutine, one record: a second record carrying the same identity means the
+		// registry lost (or never had) the first one while its goroutine is still running
+		if prev := m.taskRun[cur.Slot]; prev == nil {
+			m.taskRun[cur.Slot] = run
+		} else if prev != run {
+			m.fail("goroutine-uses-two-records:"+what, "task "+cur.Name+" "+what+" through runtime record "+ptr(run)+" although it has been running on record "+ptr(prev)+" (same identity "+uptr(id)+")")
+		}
 	}
 	if id := m.identOf(cur); id != 0 && run.VerifGoid() != id {
 		m.fail("run-identity:"+what, "task "+cur.Name+" (identity "+uptr(id)+") "+what+" with a runtime record that belongs to identity "+uptr(run.VerifGoid()))
